@@ -398,3 +398,10 @@ impl CommandLine {
         self.commands.len() == 1 && self.commands[0].is_builtin()
     }
 }
+
+#[cfg(cicada_verif)]
+pub mod verif_hooks {
+    use super::*;
+    pub fn split_tokens_by_pipes(tokens: &[Token]) -> Vec<Tokens> { super::split_tokens_by_pipes(tokens) }
+    pub fn drain_env_tokens(tokens: &mut Tokens) -> HashMap<String, String> { super::drain_env_tokens(tokens) }
+}
